@@ -13,6 +13,9 @@ theories/Model/EvalImpl.vos theories/Model/EvalImpl.vok theories/Model/EvalImpl.
 theories/Model/Expr.vo theories/Model/Expr.glob theories/Model/Expr.v.beautified theories/Model/Expr.required_vo: theories/Model/Expr.v theories/Spec/BV.vo
 theories/Model/Expr.vio: theories/Model/Expr.v theories/Spec/BV.vio
 theories/Model/Expr.vos theories/Model/Expr.vok theories/Model/Expr.required_vos: theories/Model/Expr.v theories/Spec/BV.vos
+theories/Model/Simplify.vo theories/Model/Simplify.glob theories/Model/Simplify.v.beautified theories/Model/Simplify.required_vo: theories/Model/Simplify.v theories/Model/EvalImpl.vo
+theories/Model/Simplify.vio: theories/Model/Simplify.v theories/Model/EvalImpl.vio
+theories/Model/Simplify.vos theories/Model/Simplify.vok theories/Model/Simplify.required_vos: theories/Model/Simplify.v theories/Model/EvalImpl.vos
 theories/Proofs/BVLemmas.vo theories/Proofs/BVLemmas.glob theories/Proofs/BVLemmas.v.beautified theories/Proofs/BVLemmas.required_vo: theories/Proofs/BVLemmas.v theories/Spec/BV.vo
 theories/Proofs/BVLemmas.vio: theories/Proofs/BVLemmas.v theories/Spec/BV.vio
 theories/Proofs/BVLemmas.vos theories/Proofs/BVLemmas.vok theories/Proofs/BVLemmas.required_vos: theories/Proofs/BVLemmas.v theories/Spec/BV.vos
